@@ -93,6 +93,14 @@ def _configs(op, da, db, k_total, salt=""):
         if not db and (hk >> 31) % 7 == 0:
             cfg["dtype_a"] = "i64"
             cfg["ints"] = True
+        awk_involved = any(k_ in build.AK_LAYOUTS or k_ == "record" for k_ in (cfg["ka"], cfg.get("kb")))
+        if not cfg.get("ints") and (hk >> 35) % 4 == 0 and not awk_involved:
+            # NumPy operands stored in non-native byte order compute the same values (Awkward itself rejects such buffers,
+            # so pairings with Awkward operands are left out)
+            if cfg["ka"] in build.NP_LAYOUTS:
+                cfg["dtype_a"] = "be"
+            if cfg.get("kb") in build.NP_LAYOUTS:
+                cfg["dtype_b"] = "be"
         out.append(cfg)
     if not db and op.result == "vec":
         # always present: vector-valued operations on arrays whose stored columns are int64 (computed coordinates are floats and
